@@ -186,6 +186,22 @@ CHECKS = {
         ref="DESIGN.md section 4 C20"),
 }
 
+ROUND_13 = {
+    "C02": " Round 13: an optional numeric parameter of the writer that no call site passes stands for its default (C02.2); the precision "
+           "rule also reads class-level and module-level type tables of the reader modules (C02.6, as C17.6).",
+    "C12": " Round 13: a recognised candidate window cut down by a constant-end slice from its low end is reported (C12.1); unpaired labels "
+           "selected by membership of the label object are accepted when the label class is a dataclass whose equality compares siteId and "
+           "reported when siteId is excluded from it (C12.3).",
+    "C13": " Round 13: AlignmentSegment.create never withholds a non-empty run - on a path that builds no segment nothing but the emptiness "
+           "of the run is assumed; create is judged as the builder calls it, optional arguments it never passes are at their default (C13.12, C13.6).",
+    "C17": " Round 13: the precision rule also reads the statements outside function bodies - class attributes, module constants, parameter "
+           "defaults - of the reader modules: a narrow float type there is reported, a narrow integer type alone is refused (C17.6).",
+    "C18": " Round 13: the precision rule also reads class-level and module-level type tables of the XMAP reader chain (C18.10); an unused "
+           "optional start of the XmapEntryID index stands for its default (C18.1, as C02.2).",
+}
+for _k, _v in ROUND_13.items():
+    CHECKS[_k]["text"] += _v
+
 NOT_APPLICABLE = {
     "C06": "exact placement of a noise-free copy is the numerical outcome of FFT cross-correlation, scipy.signal.find_peaks and "
            "bin arithmetic for all offsets/strands; no clause of it is visible in the shape of the code that is not already "
